@@ -565,6 +565,7 @@ package bpmn
 //@             count(Call, code("data|IFlowDataLocator.CloneVariables")) > old(count(Call, code("data|IFlowDataLocator.CloneVariables")))
 //@   ensures [at-most-one-evaluation] count(Call, code("expression|IEvaluator.EvaluateExpression")) <= old(count(Call, code("expression|IEvaluator.EvaluateExpression"))) + 1
 //@   ensures [no-identifier-drawn] count(Call, code("id|IGenerator.New")) == old(count(Call, code("id|IGenerator.New")))
+//@   ensures [evaluating-a-condition-stores-nothing] storesNothing()
 //@   ensures [its-interface-calls-read-variables-or-evaluate] forall p int :: old(evlen) <= p && p < evlen && isCall(ev(p)) ==>
 //@             evch(ev(p)) == code("data|IFlowDataLocator.CloneVariables") || evch(ev(p)) == code("expression|IEvaluator.EvaluateExpression")
 //@   ensures f.current == old(f.current) && f.sequenceFlowId == old(f.sequenceFlowId) && f.terminate == old(f.terminate) &&
@@ -576,7 +577,7 @@ package bpmn
 //@             evch(ev(p)) == code("data|IFlowDataLocator.CloneVariables") || evch(ev(p)) == code("expression|IEvaluator.EvaluateExpression")
 //@     invariant count(Call, code("expression|IEvaluator.EvaluateExpression")) == old(count(Call, code("expression|IEvaluator.EvaluateExpression")))
 //@     invariant count(Call, code("data|IFlowDataLocator.CloneVariables")) == old(count(Call, code("data|IFlowDataLocator.CloneVariables"))) + 1
-//@     invariant count(Call, code("id|IGenerator.New")) == old(count(Call, code("id|IGenerator.New")))
+//@     invariant count(Call, code("id|IGenerator.New")) == old(count(Call, code("id|IGenerator.New"))) && storesNothing()
 
 // handleSequenceFlow: the current token either moves along the flow (leave, visit, position and transformer
 // updated) or stays exactly where it was; it emits only traces.
@@ -594,6 +595,7 @@ package bpmn
 //@             count(WgDone, f.flowWaitGroup) == old(count(WgDone, f.flowWaitGroup)) &&
 //@             count(Call, code("id|IGenerator.New")) == old(count(Call, code("id|IGenerator.New")))
 //@   ensures [visit-iff-flowed] count(Trace, VisitTrace) == old(count(Trace, VisitTrace)) + (flowed ? 1 : 0)
+//@   ensures [moving-a-token-stores-nothing] storesNothing()
 //@   ensures f.retry == old(f.retry) && f.id == old(f.id) && f.tracer == old(f.tracer) && f.idGenerator == old(f.idGenerator) &&
 //@           f.flowNodeMapping == old(f.flowNodeMapping) && f.flowWaitGroup == old(f.flowWaitGroup) && f.locator == old(f.locator)
 
@@ -615,6 +617,7 @@ package bpmn
 //@             count(Spawn, code("(*flow).Start$1")) == old(count(Spawn, code("(*flow).Start$1"))) &&
 //@             count(WgDone, f.flowWaitGroup) == old(count(WgDone, f.flowWaitGroup)) &&
 //@             count(Call, code("id|IGenerator.New")) == old(count(Call, code("id|IGenerator.New"))) + (flowed ? 1 : 0)
+//@   ensures [preparing-a-fork-stores-nothing] storesNothing()
 //@   ensures [current-token-untouched] f.current == old(f.current) && f.sequenceFlowId == old(f.sequenceFlowId) && f.terminate == old(f.terminate) &&
 //@             f.actionTransformer == old(f.actionTransformer) && f.retry == old(f.retry) && f.id == old(f.id) && f.tracer == old(f.tracer) &&
 //@             f.idGenerator == old(f.idGenerator) && f.flowNodeMapping == old(f.flowNodeMapping) && f.flowWaitGroup == old(f.flowWaitGroup) && f.locator == old(f.locator)
@@ -643,6 +646,7 @@ package bpmn
 //@   ensures [counts] count(Spawn, code("(*flow).Start$1")) == old(count(Spawn, code("(*flow).Start$1"))) + 1 &&
 //@             count(Trace, FlowTrace) == old(count(Trace, FlowTrace)) && count(Trace, TerminationTrace) == old(count(Trace, TerminationTrace)) &&
 //@             count(WgDone, f.flowWaitGroup) == old(count(WgDone, f.flowWaitGroup))
+//@   ensures [starting-a-fork-stores-nothing] storesNothing()
 //@   ensures [counted-before-started] forall p int :: old(evlen) <= p && p < evlen && isSpawn(ev(p)) ==>
 //@             exists q int :: old(evlen) <= q && q < p && isWgAdd(ev(q)) && evch(ev(q)) == f.flowWaitGroup
 
@@ -660,7 +664,12 @@ package bpmn
 //@   count(WgDone, f.flowWaitGroup) == old(count(WgDone, f.flowWaitGroup)) &&
 //@   count(Trace, TerminationTrace) == old(count(Trace, TerminationTrace))
 //@ spec func iterFrame(f *flow) bool =
-//@   count(Trace, FlowTrace) == athead(1, count(Trace, FlowTrace))
+//@   count(Trace, FlowTrace) == athead(1, count(Trace, FlowTrace)) &&
+//@   count(Spawn, code("(*flow).Start$1")) == athead(1, count(Spawn, code("(*flow).Start$1")))
+// storesNothing: no variable and no data object was stored since the old state (the two interface calls that store).
+//@ spec func storesNothing() bool =
+//@   count(Call, code("data|IFlowDataLocator.SetVariable")) == old(count(Call, code("data|IFlowDataLocator.SetVariable"))) &&
+//@   count(Call, code("data|IItemAware.Put")) == old(count(Call, code("data|IItemAware.Put")))
 //@ spec func noVisitYet(f *flow) bool =
 //@   count(Trace, VisitTrace) == athead(1, count(Trace, VisitTrace))
 
@@ -676,6 +685,13 @@ package bpmn
 //@   ensures [at-most-one-termination-trace] count(Trace, TerminationTrace) <= old(count(Trace, TerminationTrace)) + 1
 //@   ensures [termination-is-the-last-trace] count(Trace, TerminationTrace) == old(count(Trace, TerminationTrace)) + 1 ==>
 //@             isTrace(ev(evlen - 3)) && is(evval(ev(evlen - 3)), TerminationTrace)
+//@   assert before "sequences := a.sequenceFlows" [every-result-field-and-data-output-of-an-answer-is-stored @C08] let r := a.response in r != nil ==>
+//@             count(Call, code("data|IFlowDataLocator.SetVariable")) == athead(1, count(Call, code("data|IFlowDataLocator.SetVariable")) + len(r.variables)) &&
+//@             count(Call, code("data|IItemAware.Put")) == athead(1, count(Call, code("data|IItemAware.Put")) + len(r.dataObjects))
+//@   assert before "select { case handler := <-res.handler" [the-error-trace-is-sent-before-the-handlers-decision-is-awaited @C08]
+//@             count(Trace, ErrorTrace) == athead(1, count(Trace, ErrorTrace)) + 1
+//@   assert before "sequences := a.sequenceFlows" [an-answer-carrying-an-error-has-emitted-its-error-trace @C08] let r := a.response in r != nil && r.err != nil ==>
+//@             count(Trace, ErrorTrace) == athead(1, count(Trace, ErrorTrace)) + 1
 //@   loop 1 for
 //@     cancels ctx
 //@     invariant tokFrame(f)
@@ -701,12 +717,22 @@ package bpmn
 //@     exit ensures [every-flow-of-a-probe-is-evaluated] rk2 == len(a.sequenceFlows)
 //@     invariant tokFrame(f) && iterFrame(f) && noVisitYet(f) && count(Recv, ErrHandler) == athead(1, count(Recv, ErrHandler)) && f.retry == athead(1, f.retry)
 //@   loop 3 range res.dataObjects
+//@     invariant count(Trace, ErrorTrace) == atentry(3, count(Trace, ErrorTrace)) && res.err == atentry(3, res.err)
 //@     invariant tokFrame(f) && iterFrame(f) && noVisitYet(f) && f.retry == athead(1, f.retry)
+//@     invariant [one-put-per-data-output-so-far] count(Call, code("data|IItemAware.Put")) == athead(1, count(Call, code("data|IItemAware.Put"))) + rk3
+//@     invariant count(Call, code("data|IFlowDataLocator.SetVariable")) == athead(1, count(Call, code("data|IFlowDataLocator.SetVariable")))
 //@   loop 4 range res.variables
+//@     invariant count(Trace, ErrorTrace) == atentry(4, count(Trace, ErrorTrace)) && res.err == atentry(4, res.err)
 //@     invariant tokFrame(f) && iterFrame(f) && noVisitYet(f) && f.retry == athead(1, f.retry)
+//@     invariant [one-store-per-result-field-so-far] count(Call, code("data|IFlowDataLocator.SetVariable")) == athead(1, count(Call, code("data|IFlowDataLocator.SetVariable"))) + rk4
+//@     invariant let r := res in count(Call, code("data|IItemAware.Put")) == athead(1, count(Call, code("data|IItemAware.Put")) + len(r.dataObjects))
 //@   loop 5 range a.unconditionalFlows
+//@     invariant [nothing-is-stored-after-the-answer-has-been-stored] count(Call, code("data|IFlowDataLocator.SetVariable")) == atentry(5, count(Call, code("data|IFlowDataLocator.SetVariable"))) &&
+//@               count(Call, code("data|IItemAware.Put")) == atentry(5, count(Call, code("data|IItemAware.Put")))
 //@     invariant tokFrame(f) && iterFrame(f) && noVisitYet(f) && f.retry == athead(1, f.retry) && len(unconditional) == len(sequences)
 //@   loop 6 range rest
+//@     invariant [nothing-is-stored-after-the-answer-has-been-stored] count(Call, code("data|IFlowDataLocator.SetVariable")) == atentry(6, count(Call, code("data|IFlowDataLocator.SetVariable"))) &&
+//@               count(Call, code("data|IItemAware.Put")) == atentry(6, count(Call, code("data|IItemAware.Put")))
 //@     invariant tokFrame(f) && iterFrame(f) && f.retry == athead(1, f.retry) && len(unconditional) == len(sequences) && len(rest) == len(sequences) - 1
 //@     invariant [no-forked-token-is-started-before-the-flow-trace-that-announces-it] count(Spawn, code("(*flow).Start$1")) == athead(1, count(Spawn, code("(*flow).Start$1")))
 //@     invariant count(Trace, VisitTrace) == athead(1, count(Trace, VisitTrace)) + (flowed ? 1 : 0)
@@ -714,6 +740,8 @@ package bpmn
 //@               fncode(at(flowHandlers, b)) == code("(*flow).handleAdditionalSequenceFlow$1")
 //@     invariant len(effectiveFlows) >= len(flowHandlers) && (flowed ==> len(effectiveFlows) == len(flowHandlers) + 1) && (!flowed ==> len(effectiveFlows) == len(flowHandlers))
 //@   loop 7 range flowHandlers
+//@     invariant [nothing-is-stored-after-the-answer-has-been-stored] count(Call, code("data|IFlowDataLocator.SetVariable")) == atentry(7, count(Call, code("data|IFlowDataLocator.SetVariable"))) &&
+//@               count(Call, code("data|IItemAware.Put")) == atentry(7, count(Call, code("data|IItemAware.Put")))
 //@     invariant f.tracer == old(f.tracer) && f.flowWaitGroup == old(f.flowWaitGroup) && f.id == old(f.id) && f.idGenerator == old(f.idGenerator) &&
 //@               f.retry == athead(1, f.retry)
 //@     invariant count(WgDone, f.flowWaitGroup) == old(count(WgDone, f.flowWaitGroup)) && count(Trace, TerminationTrace) == old(count(Trace, TerminationTrace))
